@@ -30,7 +30,7 @@ CLAIMED = {
    text=('Decides hop bound (0..=MAX_REDIRECTS, const <= 10, TooManyRedirects on exhaustion), that every re-issued hop passes redirect_target and '
          'build_redirected_request, that Ok(Some(target)) needs allow_redirects and host_is_non_global(target)=false, that the address predicates return false '
          'only after every std predicate named by the property is false, and that Host/Authorization/Cookie/Proxy-Authorization are never forwarded; same obligations for sync and async.'),
-   note='Undecided: mask constants (CGNAT, ULA, link-local) and exotic numeric notations are counted, not interpreted. Trusted base: ' + TRUSTED + '; std::net predicate semantics',
+   note='The masked comparisons for fc00::/7, fe80::/10 and 100.64.0.0/10 are decided by enumerating the 16-bit / 8-bit domain against the RFC prefixes; undecided: exotic numeric host notations. Trusted base: ' + TRUSTED + '; std::net predicate semantics',
    design='5/C27'),
  'C23': dict(
    technique='result-discipline analysis over the resolved call graph (callback-parametric may-cancel set, forward def-use consumer classification) + path rule on the checkpoint',
